@@ -664,7 +664,7 @@ def run(ck, build, only_c04=False):
         _mc.keyinit_rule(ck, f, "R-C03-KEY", label)
         try:
             before = len(ck.obligations)
-            aeadlib.check_cipher(ck, mod, f, label, {"SENS": "R-C03-SENS", "KEYINJ": "R-C03-KEY", "NARROW": "R-C03-ABSORB"})
+            aeadlib.check_cipher(ck, mod, f, label, {"SENS": "R-C03-SENS", "KEYINJ": "R-C03-KEY", "NARROW": "R-C03-ABSORB", "NONCEARG": "R-C03-KEY"})
             ns += len(ck.obligations) - before
         except Broken as e:
             ck.note("sensitivity clause not decided for %s (shape not recognised by the mode summaries): %s" % (f.name, str(e)[:160]))
